@@ -70,7 +70,7 @@ func (t *Tree) Size() int64        { return int64(len(t.Leaves)) }
 // largest power of two strictly less than n (n >= 2)
 func split(n int64) int64 {
 	k := int64(1)
-	for k*2 < n {
+	for k <= (n-1)/2 { // k*2 < n without overflow for n up to the largest int64
 		k *= 2
 	}
 	return k
